@@ -390,7 +390,9 @@ def evaluate(ctx, cases):
             (structcases, structowner,
              "fun p : bool * bool * bool * list fdecl * report => match p with (pa, pk, u, d, r) => if pa then verify_partial_struct u d r else verify_checked_struct pk u d r end",
              "vres_eqb", "C33.Model.verify_*_struct vs verify() module")):
-        badi, outs, err = vlib.coq_mismatches(["C12.Gen", "C12.Model", "C33.Spec", "C33.Gen", "C33.Model"], fexpr, eqb, cases_, shard=400)
+        ty = "option cres" if eqb == "cres_eqb" else "vres"
+        badi, outs, err = vlib.coq_mismatches(["C12.Gen", "C12.Model", "C33.Spec", "C33.Gen", "C33.Model"], fexpr, eqb,
+                                              [(i, "(%s : %s)" % (o, ty)) for i, o in cases_], shard=400)
         if err:
             ctx.obligation_broken("C33 model evaluation", err)
         for i in badi:
